@@ -7,6 +7,8 @@ THEOREMS = ['Smtb.C05.poseidon2_sat', 'Smtb.C05.poseidon1_sat', 'Smtb.C05.poseid
 
 
 def run(ctx):
+    common.lake_build(['Smtb.Properties.TraceSound2'])
+    common.audit(ctx, 'Smtb/Properties/TraceSound2.lean', ['Smtb.Properties.TraceSound2.poseidon1_trace_iff', 'Smtb.Properties.TraceSound2.poseidon2_trace_iff'])
     n = ctx.pick(1500, 60000)
     seeds = [ctx.seed] if not ctx.thorough else [ctx.seed + i for i in range(4)]
     simple.run(ctx, go_cmds=['trace', 'corrposeidon'], lean_targets=['Smtb.Properties.C05'],
@@ -17,7 +19,7 @@ def run(ctx):
                corr_name='poseidon', driver_args=['corr', 'poseidon'],
                what='Poseidon gadget (test engine + R1CS) with iden3 / textbook output', spec='Lean reference Poseidon (proved equal to the gadget)',
                assumptions=[
-                   "gate table for Add/Mul (no hints are involved)",
+                   "gate table for Add/Mul (no hints are involved); the link from the expanded trace to the Sat semantics is proved (poseidon2_trace_iff): no parametricity assumption",
                    "the reference tables in Smtb/Circuit/PoseidonTables.lean are a snapshot; T-trace compares every constant with /repo's tables (each appears as an operand in the expanded trace); 'equals circomlib/iden3' is validated against github.com/iden3/go-iden3-crypto/poseidon and two published vectors (kernel-checked), not proved",
                ],
                trusted=["iden3 go-iden3-crypto v0.0.13 poseidon.Hash as the external statement of 'the reference Poseidon' on BN254"])
